@@ -292,6 +292,7 @@ def handleSelfUpdate (inc : Nat) (st : St) : M Unit := do
   match st with
   | .suspect =>
     let s ← getS
+    if s.conn == .undead then pure () else
     let increase := Gen.increaseIncarnation s.inc inc
     let inc' := max inc s.inc
     if inc' == 65535 then
@@ -529,6 +530,27 @@ def reactToMessage (h : Header) : M Unit := do
   | .feed => pure ()
   | .broadcast => pure ()
 
+/-- `handle_data`, sender inactive after its header was applied: the payload is dropped; a TurnUndead is
+    still honoured; the sender is told it is down (unless that would be a dead instance answering a TurnUndead) -/
+def inactiveSender (h : Header) : M Unit := do
+  if h.msg == .turnUndead then handleSelfUpdate E 0 .down
+  let s ← getS
+  let undeadReplyToUndead := h.msg == .turnUndead && s.conn == .undead
+  if s.cfg.notifyDown && !undeadReplyToUndead then sendMessage E h.src .turnUndead
+
+/-- `handle_data`, last stage: react to the message only while connected; report the custom broadcast outcome -/
+def replyStage (h : Header) (cres : Option ErrKind) : M Unit := do
+  let s ← getS
+  if s.conn != .connected then
+    match cres with
+    | some e => throwE e
+    | none => pure ()
+  else
+    reactToMessage E h
+    match cres with
+    | some e => throwE e
+    | none => pure ()
+
 /-- `Foca::handle_data` -/
 def handleData (data : Bytes) : M Unit := do
   let s ← getS
@@ -550,24 +572,11 @@ def handleData (data : Bytes) : M Unit := do
     | none => throwE .decode
     | some (updates, tail) =>
       let senderActive ← applyUpdate E ⟨h.src, h.srcInc, .alive⟩ true
-      if !senderActive then
-        if h.msg == .turnUndead then handleSelfUpdate E 0 .down
-        let s ← getS
-        let undeadReplyToUndead := h.msg == .turnUndead && s.conn == .undead
-        if s.cfg.notifyDown && !undeadReplyToUndead then sendMessage E h.src .turnUndead
+      if !senderActive then inactiveSender E h
       else
         applyMany E updates true
         let cres ← attempt (handleCustomBroadcasts E tail (some h.src))
-        let s ← getS
-        if s.conn != .connected then
-          match cres with
-          | some e => throwE e
-          | none => pure ()
-        else
-          reactToMessage E h
-          match cres with
-          | some e => throwE e
-          | none => pure ()
+        replyStage E h cres
 
 /-! ### one public call -/
 
